@@ -28,6 +28,9 @@ EXTENDS Naturals, Sequences, FiniteSets, TLC, Json
 CONSTANTS
     NThreads,     \* threads are 1..NThreads
     StoreOf,      \* sequence: context instance -> storage id (shared() instances alias 0)
+    InstKind,     \* sequence: how the instance is obtained: "new" | "shared" | "default" | "setup"
+                  \* (ThreadLocalCtxt::new(), ::shared(), ::default(), the context of a runtime
+                  \* built by emit::setup()...init_slot(fresh slot)); only "shared" may alias
     NKeys,        \* property keys are 1..NKeys; a property map is a tuple, 0 = absent
     PropChoices,  \* property maps offered to Open (keys are distinct by construction)
     Kinds,        \* subset of {"push", "root", "disabled", "current"}
@@ -38,6 +41,9 @@ CONSTANTS
 
 Threads == 1..NThreads
 Insts == 1..Len(StoreOf)
+ASSUME Len(InstKind) = Len(StoreOf)
+ASSUME \A i, j \in 1..Len(StoreOf) :
+          (i # j /\ StoreOf[i] = StoreOf[j]) => (InstKind[i] = "shared" /\ InstKind[j] = "shared" /\ StoreOf[i] = 0)
 Stores == {StoreOf[c] : c \in Insts}
 Frames == 1..MaxFrames
 Tasks == 1..MaxTasks
